@@ -130,8 +130,8 @@ def make_design(rng, i: int) -> dict:
         # background substitutions (also protein-changing ones and MNVs across codon boundaries: both runs must refuse alike) and non-coding
         # deletions, mirrored with the design; insertions are left to C06 (its recorded finding about the base after an insertion is
         # not mirror symmetric)
-        focus.update(p_bg=1.0, p_mask=0.0, bg_kinds=['snv', 'snv', 'mnv', 'mnv', 'del'], bg_mnv_coding=True, n_bg=[1, 2, 3],
-                     bg_coding=rng.choice(['syn', 'any']))
+        focus.update(p_bg=1.0, p_mask=0.0, bg_kinds=['snv', 'mnv', 'mnv', 'mnv', 'del'], bg_mnv_coding=True, n_bg=[2, 3, 4],
+                     bg_coding=rng.choice(['syn', 'any', 'any']))
     for _ in range(50):
         d = gen.gen_sge(rng, focus)
         d['extra_contigs'] = {}
